@@ -31,6 +31,15 @@ Theorem C17_cache_guarded : forallb access_ok lock_facts = true.
 Proof. exact cache_guarded. Qed.
 Print Assumptions C17_cache_guarded.
 
+(* ... where the locks held inside an unexported helper are those taken locally plus its
+   ENTRY lockset, the intersection of the locksets at all of its static call sites in the
+   package (exported functions, function values, goroutine entry points, interface-called
+   methods: empty). Obligation over the regenerated helper facts: every claimed entry lock is
+   held (same object, sufficient mode) at every recorded call site. *)
+Theorem C17_helper_entry_locksets_sound : forallb helper_ok helper_facts = true.
+Proof. exact helper_entry_locksets_sound. Qed.
+Print Assumptions C17_helper_entry_locksets_sound.
+
 (* No lost updates: every function of package security that writes a SessionCache
    field acquires the cache lock exactly once, so its read-decide-write (scan for
    expired entries then delete; look up then delete) is one critical section and no
@@ -116,6 +125,16 @@ Print Assumptions C17_session_counters_distinct.
 Theorem C17_config_slices_immutable : slice_muts = [].
 Proof. exact config_slices_immutable. Qed.
 Print Assumptions C17_config_slices_immutable.
+
+(* The key bytes of a cached SessionEntry (KeyInfo.Data) are shared, without a lock, by every
+   connection resuming the session (setSharedSecret(entry.KeyInfo().Data) aliases them). No
+   function of security/, client/, server/, ccb/ writes in place (element or sub-slice
+   assignment, clear, copy destination, read-into) to a byte slice that may alias them
+   (may-alias: taint from KeyInfo.Data through assignments, re-slicing, fields, arguments and
+   results; a fresh copy ends it): one connection cannot disturb the key another one installs. *)
+Theorem C17_cached_key_never_written : cached_key_writers key_writes = [].
+Proof. exact cached_key_never_written. Qed.
+Print Assumptions C17_cached_key_never_written.
 
 (* Every call site of security.NewAuthenticator in security/, client/, server/,
    ccb/ passes the address of a per-connection copy (never a shared pointer);
